@@ -38,7 +38,7 @@ func APIGroupMatches(apiGroups []string, request string) bool {
 }
 
 func ResourceMatches(resources []string, combinedRequestedResource, requestedSubresource string) bool {
-	return simpleMatches(resources, []string{combinedRequestedResource}, func(m matcher) bool {
+	return simpleMatches(resources, []string{combinedRequestedResource}, func(rule string) bool {
 		// We can also match a */subresource.
 		// if there isn't a subresource, then continue
 		if len(requestedSubresource) == 0 {
@@ -47,12 +47,8 @@ func ResourceMatches(resources []string, combinedRequestedResource, requestedSub
 		}
 
 		// if the rule isn't in the format */subresource, then we don't match, continue
-		if strings.HasPrefix(m.value, "*/") {
-			allSubresource := "*/" + requestedSubresource
-			if (!m.reverse && m.value == allSubresource) ||
-				(m.reverse && m.value != allSubresource) {
-				return true
-			}
+		if strings.HasPrefix(rule, "*/") {
+			return rule == "*/"+requestedSubresource
 		}
 		return false
 	})
@@ -71,11 +67,8 @@ func UserOrServiceAccountMatches(users []string, serviceAccounts []ServiceAccoun
 		return true
 	}
 
-	if simpleMatches(users, []string{requestUser}, func(m matcher) bool {
-		if strings.HasSuffix(m.value, "*") && strings.HasPrefix(requestUser, strings.TrimRight(m.value, "*")) {
-			return true
-		}
-		return false
+	if simpleMatches(users, []string{requestUser}, func(rule string) bool {
+		return globMatches(rule, requestUser)
 	}) {
 		return true
 	}
@@ -99,40 +92,52 @@ func UserGroupMatches(userGroups []string, requestGroups []string) bool {
 }
 
 func NonResourceURLMatches(nonResourceURLs []string, request string) bool {
-	filtered, matchAll := filterRules(nonResourceURLs)
+	// inverted rules are not supported for non resource urls, ignore them
+	positive, _, matchAll := filterRules(nonResourceURLs)
 	if matchAll {
 		return true
 	}
+	return anyMatches(positive, []string{request}, []func(rule string) bool{
+		func(rule string) bool { return globMatches(rule, request) },
+	})
+}
 
-	for _, v := range filtered {
-		if v.reverse {
-			// ignore reversed rules
-			continue
-		}
-		if v.match(request) {
-			return true
-		}
-		if strings.HasSuffix(v.value, "*") && strings.HasPrefix(request, strings.TrimRight(v.value, "*")) {
-			return true
-		}
+// globMatches reports whether rule ends with '*' and request starts with the rest of it
+func globMatches(rule, request string) bool {
+	return strings.HasSuffix(rule, "*") && strings.HasPrefix(request, strings.TrimRight(rule, "*"))
+}
+
+// simpleMatches reports whether any of the requests is matched by the rules:
+//   - "*" matches everything
+//   - if there is any positive rule, the inverted rules are ignored and one of
+//     the positive rules must match
+//   - a list made only of inverted rules matches exactly the requests that the
+//     corresponding positive list does not match
+func simpleMatches(rules []string, requests []string, matchFn ...func(rule string) bool) bool {
+	positive, inverted, matchAll := filterRules(rules)
+	if matchAll {
+		return true
+	}
+	if len(positive) > 0 {
+		return anyMatches(positive, requests, matchFn)
+	}
+	if len(inverted) > 0 {
+		return !anyMatches(inverted, requests, matchFn)
 	}
 	return false
 }
 
-func simpleMatches(rules []string, requests []string, matchFn ...func(m matcher) bool) bool {
-	filtered, matchAll := filterRules(rules)
-	if matchAll {
-		return true
-	}
-
-	for _, v := range filtered {
+// anyMatches reports whether one of the positive rules equals one of the
+// requests or is accepted by one of the additional match functions
+func anyMatches(rules []string, requests []string, matchFn []func(rule string) bool) bool {
+	for _, rule := range rules {
 		for _, request := range requests {
-			if v.match(request) {
+			if rule == request {
 				return true
 			}
 		}
 		for _, match := range matchFn {
-			if match(v) {
+			if match(rule) {
 				return true
 			}
 		}
@@ -140,20 +145,9 @@ func simpleMatches(rules []string, requests []string, matchFn ...func(m matcher)
 	return false
 }
 
-type matcher struct {
-	reverse bool
-	value   string
-}
-
-func (m matcher) match(request string) bool {
-	if m.reverse {
-		return m.value != request
-	}
-	return m.value == request
-}
-
-func filterRules(rules []string) (filtered []matcher, matchAll bool) {
-	reversed := []matcher{}
+// filterRules splits rules into positive rules and inverted rules (without
+// their '-' prefix), matchAll is true if one of the rules is "*"
+func filterRules(rules []string) (positive, inverted []string, matchAll bool) {
 	for _, r := range rules {
 		if r == MatchAll {
 			matchAll = true
@@ -161,15 +155,10 @@ func filterRules(rules []string) (filtered []matcher, matchAll bool) {
 		}
 		// legecy group will be ""
 		if len(r) > 0 && r[0] == '-' {
-			reversed = append(reversed, matcher{true, r[1:]})
+			inverted = append(inverted, r[1:])
 		} else {
-			filtered = append(filtered, matcher{false, r})
+			positive = append(positive, r)
 		}
 	}
-	if len(filtered) > 0 {
-		// if filtered is not empty drop reversed
-		return
-	}
-	filtered = reversed
 	return
 }
